@@ -10,7 +10,15 @@
 (*                       (the value is a function of template and context only)   *)
 (*        call-inline    a = {name a1 .. an}, b = the body with {i} replaced by   *)
 (*                       the arguments, written inline                            *)
-(*        load-names     a = names registered by the loader, b = names written    *)
+(*        load-names     a = names registered by the loader, b = names of the     *)
+(*                       definitions written that compile (the file may also hold *)
+(*                       definitions that do not: they are as if not written)     *)
+(*        proc-opt-noopt a = a value obtained in a process that compiled its      *)
+(*                       expressions with the optimiser (whose probe evaluation   *)
+(*                       runs a data-bounded {@for} to its iteration cap), b =    *)
+(*                       the same evaluation in a process that compiled them      *)
+(*                       without; sequential and from several goroutines          *)
+(*                       (spec/ExprProbe.tla: the probe leaves no trace)          *)
 (*        conc-seq       a = value obtained while W goroutines evaluate the same  *)
 (*                       compiled expression, b = the sequential value            *)
 (*        cli-opt-noopt, cli-lib   the command line: with/without --no-optimize;  *)
@@ -33,7 +41,7 @@ Trace == ndJsonDeserialize("trace.ndjson")
 VARIABLES l, bad, nontrivial
 tvars == <<l, bad, nontrivial>>
 
-EqWhats == {"opt-noopt", "hist-fresh", "call-inline", "load-names", "conc-seq", "cli-opt-noopt", "cli-lib"}
+EqWhats == {"opt-noopt", "hist-fresh", "call-inline", "load-names", "conc-seq", "cli-opt-noopt", "cli-lib", "proc-opt-noopt"}
 VolWhats == {"live", "delta", "now"}
 
 InDomain(r) ==
